@@ -627,12 +627,12 @@ Qed.
    bodies, so they have at least 20 bytes, and the tree id is EMPTY when the
    text has no "tree" line (such a text is still accepted as a commit) *)
 Theorem parse_commit_sound : forall data c,
-  parse_commit data = Some c -> commit_from (scan_lines data) c.
+  parse_commit data = Some c -> commit_from (lf_lines data) c.
 Proof.
   intros data c H. unfold parse_commit in H.
-  destruct (parse_headers (scan_lines data) (mkCommit [] [] None None [])) as [[c1 ml]|] eqn:Eh; [|discriminate H].
+  destruct (parse_headers (lf_lines data) (mkCommit [] [] None None [])) as [[c1 ml]|] eqn:Eh; [|discriminate H].
   injection H as <-.
-  apply (parse_headers_sound (scan_lines data)) in Eh.
+  apply (parse_headers_sound (lf_lines data)) in Eh.
   - exact Eh.
   - apply incl_refl.
   - unfold commit_from. cbn [c_tree c_parents c_author c_committer].
@@ -646,7 +646,7 @@ Proof.
   intros data c H. destruct (parse_commit_sound data c H) as (Ht & Hp & _). split.
   - destruct Ht as [Ht | [body [_ Hb]]]; [left; exact Ht | right].
     destruct (read_hash_sound _ _ Hb) as (_ & _ & _ & _ & Hlen). exact Hlen.
-  - apply (Forall_impl _ (P := fun p => exists body, In (str "parent"%string ++ c_sp :: body) (scan_lines data)
+  - apply (Forall_impl _ (P := fun p => exists body, In (str "parent"%string ++ c_sp :: body) (lf_lines data)
                                                /\ read_hash body = Some p)); [|exact Hp].
     intros p [body [_ Hb]]. destruct (read_hash_sound _ _ Hb) as (_ & _ & _ & _ & Hlen). exact Hlen.
 Qed.
